@@ -559,6 +559,8 @@ def _real_partial_normal_to_complex_partial_normal(ham: Hamiltonian, **kwargs) -
         Inverse transformation back to real partial normal form.
     """
     point = kwargs["point"]
+    from hiten.system.libration.collinear import CollinearPoint
+    from hiten.system.libration.triangular import TriangularPoint
     if isinstance(point, CollinearPoint):
         mix_pairs = (1, 2)
     elif isinstance(point, TriangularPoint):
@@ -949,6 +951,8 @@ def _real_full_normal_to_complex_full_normal(ham: Hamiltonian, **kwargs) -> Hami
         Inverse transformation back to real full normal form.
     """
     point = kwargs["point"]
+    from hiten.system.libration.collinear import CollinearPoint
+    from hiten.system.libration.triangular import TriangularPoint
     if isinstance(point, CollinearPoint):
         mix_pairs = (1, 2)
     elif isinstance(point, TriangularPoint):
